@@ -6,7 +6,7 @@
 // from /repo's current working tree (cached by tree hash), runs the property's
 // jobs on all cores, matches what they report against the committed list of
 // known findings, writes evidence/<id>.json and replay files, and exits 0 / 1
-// (VIOLATION line) / 2 (harness error, never a VIOLATION line).
+// (at least one confirmed VIOLATION line) / 2 (harness error and no violation).
 package main
 
 import (
@@ -16,6 +16,10 @@ import (
 	"encoding/json"
 	"flag"
 	"fmt"
+	"go/ast"
+	gobuild "go/build"
+	goparser "go/parser"
+	"go/token"
 	"io/ioutil"
 	"os"
 	"os/exec"
@@ -51,31 +55,31 @@ type Violation struct {
 
 // Result is the JSON a worker prints.
 type Result struct {
-	Prop        string           `json:"prop"`
-	Engine      string           `json:"engine"`
-	Scenario    string           `json:"scenario"`
-	Desc        string           `json:"desc"`
-	Bound       int              `json:"bound"`
-	FreeBound   int              `json:"free_bound"`
-	Shard       int              `json:"shard"`
-	NShards     int              `json:"nshards"`
-	Execs       int64            `json:"executions"`
-	Transitions int64            `json:"transitions"`
-	States      int              `json:"states"`
-	StateKeys   []uint64         `json:"state_keys,omitempty"`
-	MaxPoints   int              `json:"max_points"`
-	Nontrivial  int64            `json:"nontrivial"`
-	Skipped     int64            `json:"unspecified_skipped"`
-	Outcomes    map[string]int64 `json:"outcomes"`
-	Capped      string           `json:"capped,omitempty"`
-	HarnessErr  string           `json:"harness_error,omitempty"`
-	Violations  []*Violation     `json:"violations,omitempty"`
-	Sample      []string         `json:"sample_trace,omitempty"`
-	Samples     []interface{}    `json:"samples,omitempty"`
-	WallS       float64          `json:"wall_s"`
-	Races       []string         `json:"races,omitempty"`
+	Prop        string                 `json:"prop"`
+	Engine      string                 `json:"engine"`
+	Scenario    string                 `json:"scenario"`
+	Desc        string                 `json:"desc"`
+	Bound       int                    `json:"bound"`
+	FreeBound   int                    `json:"free_bound"`
+	Shard       int                    `json:"shard"`
+	NShards     int                    `json:"nshards"`
+	Execs       int64                  `json:"executions"`
+	Transitions int64                  `json:"transitions"`
+	States      int                    `json:"states"`
+	StateKeys   []uint64               `json:"state_keys,omitempty"`
+	MaxPoints   int                    `json:"max_points"`
+	Nontrivial  int64                  `json:"nontrivial"`
+	Skipped     int64                  `json:"unspecified_skipped"`
+	Outcomes    map[string]int64       `json:"outcomes"`
+	Capped      string                 `json:"capped,omitempty"`
+	HarnessErr  string                 `json:"harness_error,omitempty"`
+	Violations  []*Violation           `json:"violations,omitempty"`
+	Sample      []string               `json:"sample_trace,omitempty"`
+	Samples     []interface{}          `json:"samples,omitempty"`
+	WallS       float64                `json:"wall_s"`
+	Races       []string               `json:"races,omitempty"`
 	Extra       map[string]interface{} `json:"extra,omitempty"`
-	Rule        string           `json:"rule,omitempty"`
+	Rule        string                 `json:"rule,omitempty"`
 }
 
 type listItem struct {
@@ -88,23 +92,23 @@ type listItem struct {
 }
 
 type job struct {
-	bin      string
-	args     []string
-	name     string
-	prop     string
-	part     string
-	res      *Result
-	err      string
-	out      []byte
-	weight   int
+	bin    string
+	args   []string
+	name   string
+	prop   string
+	part   string
+	res    *Result
+	err    string
+	out    []byte
+	weight int
 }
 
 type propInfo struct {
-	engine     string // "A" (mcsched) or "B" (mcseq)
-	level      string
-	rule       string
-	assume     []string
-	minOutcomes int
+	engine       string // "A" (mcsched) or "B" (mcseq)
+	level        string
+	rule         string
+	assume       []string
+	minOutcomes  int
 	mustOutcomes []string
 }
 
@@ -250,12 +254,17 @@ func main() {
 	for _, l := range ev.lines {
 		fmt.Println(l)
 	}
+	if ev.Violations > 0 {
+		// a confirmed (replayed) violation stands even when another job of the
+		// run could not be decided
+		if ev.harnessErr != "" {
+			fmt.Fprintln(os.Stderr, "check: harness error in another job:", ev.harnessErr)
+		}
+		os.Exit(1)
+	}
 	if ev.harnessErr != "" {
 		fmt.Fprintln(os.Stderr, "check: harness error:", ev.harnessErr)
 		os.Exit(2)
-	}
-	if ev.Violations > 0 {
-		os.Exit(1)
 	}
 	cov := ev.Coverage
 	fmt.Printf("OK property=%s tier=%s executions=%v states=%v exhaustive=%v wall=%.1fs\n", prop, *tier,
@@ -454,6 +463,18 @@ func build() (string, *instr.Summary, error) {
 		seamOverlay[filepath.Join(repoDir, "util", "import.go")] = dst
 		ioutil.WriteFile(filepath.Join(bdir, "io_calls_rewritten"), []byte(fmt.Sprint(n)), 0644)
 	}
+	// C13: an accessor for every package-level variable of the parser and the
+	// interpreter (generated from the working tree, so that a variable a change
+	// adds is covered as well); Engine B only
+	for _, pkg := range []string{"parser", "interpreter"} {
+		src, err := genGlobals(filepath.Join(repoDir, pkg))
+		if err != nil {
+			return "", nil, fmt.Errorf("globals accessor for %s: %v", pkg, err)
+		}
+		dst := filepath.Join(bdir, "seam_"+pkg+"_globals.go")
+		ioutil.WriteFile(dst, []byte(src), 0644)
+		seamOverlay[filepath.Join(repoDir, pkg, "zz_verif_globals.go")] = dst
+	}
 	js, _ := json.Marshal(map[string]interface{}{"Replace": seamOverlay})
 	ioutil.WriteFile(filepath.Join(bdir, "seams.json"), js, 0644)
 	if _, err := os.Stat(filepath.Join(mc, "cmd", "mcseq")); err == nil {
@@ -465,6 +486,44 @@ func build() (string, *instr.Summary, error) {
 	ioutil.WriteFile(sumFile, sj, 0644)
 	ioutil.WriteFile(filepath.Join(bdir, "ok"), []byte(time.Now().String()), 0644)
 	return bdir, sum, nil
+}
+
+// genGlobals writes `func VerifGlobals() map[string]interface{}` returning the
+// address of every package-level variable of the package in dir.
+func genGlobals(dir string) (string, error) {
+	bp, err := gobuild.Default.ImportDir(dir, 0)
+	if err != nil {
+		return "", err
+	}
+	fset := token.NewFileSet()
+	var names []string
+	for _, f := range bp.GoFiles {
+		af, err := goparser.ParseFile(fset, filepath.Join(dir, f), nil, 0)
+		if err != nil {
+			return "", err
+		}
+		for _, d := range af.Decls {
+			gd, ok := d.(*ast.GenDecl)
+			if !ok || gd.Tok != token.VAR {
+				continue
+			}
+			for _, sp := range gd.Specs {
+				for _, n := range sp.(*ast.ValueSpec).Names {
+					if n.Name != "_" {
+						names = append(names, n.Name)
+					}
+				}
+			}
+		}
+	}
+	sort.Strings(names)
+	var b strings.Builder
+	fmt.Fprintf(&b, "package %s\n\n// VerifGlobals is generated by /verif (Engine B seam).\nfunc VerifGlobals() map[string]interface{} {\n\treturn map[string]interface{}{\n", bp.Name)
+	for _, n := range names {
+		fmt.Fprintf(&b, "\t\t%q: &%s,\n", n, n)
+	}
+	b.WriteString("\t}\n}\n")
+	return b.String(), nil
 }
 
 // seamFiles lists the overlay-added export seams ("repo-relative target=source").
